@@ -110,6 +110,9 @@ def fmin {K} [LT K] [DecidableLT K] [BEq K] (a b : K) : K := if b < a then b els
 /-- `f64::max` -/
 def fmax {K} [LT K] [DecidableLT K] [BEq K] (a b : K) : K := if a < b then b else if a == a then a else b
 
+/-- `for x in l { … }` as a left fold (list and initial state first, which helps elaboration) -/
+def foldlT {α β : Type} (l : List α) (init : β) (f : β → α → β) : β := List.foldl f init l
+
 /-- `v[i]` (Rust panics out of range; the model returns a default, and the properties never index out of range) -/
 def idx {α} [Inhabited α] (l : List α) (i : Nat) : α := l[i]!
 
